@@ -44,6 +44,7 @@ fn cond_text(c: &str) -> &'static str {
         "E" => "${c} and ( true or false )",
         "K" => "gtz ${c}",
         "N" => "not gtz ${c}",
+        "D" => "${d}",
         _ => "false",
     }
 }
@@ -144,6 +145,13 @@ fn gen_block(r: &mut Rng, depth: usize, budget: &mut i64, out: &mut Vec<(String,
         match if depth == 0 { r.below(3) } else { r.below(8) } {
             0 | 1 => out.push(("emit".into(), "T".into())),
             2 => out.push(("dec".into(), "T".into())),
+            3 if depth >= 2 && r.chance(1, 6) => {
+                // a long inner loop on the second counter: 17 rounds that leave the loops around it where they were
+                out.push(("setd".into(), "T".into()));
+                out.push((pick(r, &["while", "While!"]), "D".into()));
+                out.push(("decd".into(), "T".into()));
+                out.push((pick(r, &["end", "end_while", "endwhile", "EndWhile!"]), "T".into()));
+            }
             3 | 4 => {
                 out.push((pick(r, &["if", "If!"]), pick(r, &["T", "F", "C", "E", "K", "N"])));
                 gen_block(r, depth - 1, budget, out, false);
@@ -178,6 +186,8 @@ pub fn render_flow(prog: &[(String, String)], c0: i64) -> String {
         let t = match cmd.as_str() {
             "emit" => "emit \"${c}\" \"${i}\"".to_string(),
             "dec" => "c = dec ${c}".to_string(),
+            "setd" => "d = set 17".to_string(),
+            "decd" => "d = dec ${d}".to_string(),
             "if" | "If!" | "elseif" | "elif" | "ElseIf!" | "while" | "While!" => format!("{} {}", name, cond_text(cond)),
             "for" | "For!" => format!("{} i in ${{arr}}", name),
             _ => name,
@@ -198,9 +208,16 @@ pub fn record(args: &[String]) {
     let mut s = Summary::new();
     let (mut lines, mut emits, mut maxdepth_lines) = (0u64, 0u64, 0usize);
     let mut done = 0;
+    let p = |c: &str, d: &str| (c.to_string(), d.to_string());
+    // the first programs are fixed: a long inner loop (second counter) inside a while and inside a while > for
+    let fixed: Vec<Vec<(String, String)>> = vec![
+        vec![p("while", "C"), p("dec", "T"), p("setd", "T"), p("while", "D"), p("decd", "T"), p("end", "T"), p("emit", "T"), p("end", "T"), p("emit", "T")],
+        vec![p("while", "C"), p("dec", "T"), p("for", "T"), p("setd", "T"), p("while", "D"), p("decd", "T"), p("end_while", "T"), p("emit", "T"), p("end_for", "T"), p("endwhile", "T"), p("emit", "T")],
+    ];
     while done < nprog {
         let mut prog = vec![];
         let mut budget = 5 + r.below(maxlines as usize) as i64;
+        if done < fixed.len() { prog = fixed[done].clone(); budget = 0; }
         while budget > 0 && prog.len() < maxlines as usize * 3 {
             let d = 1 + r.below(6);
             gen_block(&mut r, d, &mut budget, &mut prog, false);
@@ -242,6 +259,7 @@ pub fn render_func(prog: &[Value], fnend: usize) -> String {
             "fn" => if ln["a"].as_bool().unwrap() { "fn <scope> f".to_string() } else { "fn f".to_string() },
             "emit" => "emit \"${c}\" \"${i}\" \"${r}\" \"${1}\"".to_string(),
             "dec" => "c = dec ${c}".to_string(),
+            "setr" => "r = set 9".to_string(),
             "if" => match ln["a"].as_str().unwrap() { "C" => "if ${c}".to_string(), "call" => format!("if f {}", ln["arg"]), _ => "if false".to_string() },
             "else" => "else".into(),
             "end" => "end".into(),
@@ -314,7 +332,7 @@ fn gen_func_block(r: &mut Rng, depth: usize, budget: &mut i64, out: &mut Vec<Val
         *budget -= 1;
         match if depth == 0 { r.below(5) } else { r.below(9) } {
             0 | 1 => out.push(fline("emit", json!("T"), false, 0)),
-            2 => out.push(fline("dec", json!("T"), false, 0)),
+            2 => if infn && r.chance(1, 3) { out.push(fline("setr", json!("T"), false, 0)) } else { out.push(fline("dec", json!("T"), false, 0)) },
             3 => if infn { out.push(fline("ret", json!(r.chance(1, 2)), false, 0)) } else { let o = r.chance(1, 2); out.push(fline("call", json!("T"), o, if o && r.chance(1, 2) { 8 } else { 5 })) },
             4 => if infn {
                 // guarded recursion: only while the counter is positive, and it is decremented first
